@@ -197,7 +197,8 @@ class MarkerExpression(SingleMarker):
                 rhs = normalize_name(rhs)
         if isinstance(rhs, str):
             try:
-                spec = Specifier(f"{self.op}{rhs}")
+                op = get_reflect_op(self.op) if self.reversed else self.op
+                spec = Specifier(f"{op}{rhs}")
             except InvalidSpecifier:
                 pass
             else:
